@@ -154,7 +154,7 @@ NA = {}
 ADDENDA2 = {
  "C01": (" FIRSTBUCKET-INV: a node's firstbucket is computed from the node's own contents (helper parameters decided at the call sites). SEP-REFRESH: decision table of the separator-refresh guard over (child index, entries left), C = Python. PY-DEL-TAIL: decision table over (child lost its first leaf, child 0, child empty, child is a leaf) of what _Tree._del does behind the child's delete - unlink calls, _firstbucket, removal of the child, flag returned. NARROW-GUARD (integer conversions): every key of the declared type is storable - the range test of the key converter is exact. INPLACE-OPERAND / INPLACE-MONOTONE: the Python in-place set operators consume their operand once and never add and remove in one loop.",
          "; root/provenance analysis of firstbucket stores; decision tables of the delete tail"),
- "C02": (" MINMAX-TABLE: minKey(b)/maxKey(b) of the Python leaves and tree nodes and of C BTree_maxminKey/Bucket_maxminKey are walked by abstract interpreters over position atoms (bound before / on / on the last / between / behind the keys of the leaf it sorts into, successor present, child index 0, child's smallest key above the bound; C: empty, bound given, min/max, result of the endpoint search) and compared with the specification. FINDEND-TABLE: C BTree_findRangeEnd, descent included, over node roles for 72 valuations (levels, child index 0 or not per level, leaf search result, low/high, successor). RANGE-WIRING: with both bounds given BTree_rangeSearch searches (min, low=1, excludemin) and (max, low=0, excludemax) and builds the sequence from (LOW, LOW offset, HIGH, HIGH offset). ITER-CONTINUE is computed for five forms of the range arguments. SEEK-NET: BTreeItems_seek is interpreted abstractly as a whole, path by path over its syntax tree (polynomial values; helpers inlined, out-parameters followed, loops unrolled three times, contradictory paths dropped by bounds on linear forms); every successful return has committed pseudoindex == i and base(committed leaf) + offset == i, base being the index of a leaf's first item along the walk. GHOST-READ (pin typestate of C05) on the range / seek / min-max functions, their helpers and callers.",
+ "C02": (" MINMAX-TABLE: minKey(b)/maxKey(b) of the Python leaves and tree nodes and of C BTree_maxminKey/Bucket_maxminKey are walked by abstract interpreters over position atoms (bound before / on / on the last / between / behind the keys of the leaf it sorts into, successor present, child index 0, child's smallest key above the bound; C: empty, bound given, min/max, result of the endpoint search) and compared with the specification. FINDEND-TABLE: C BTree_findRangeEnd, descent included, over node roles for 72 valuations (levels, child index 0 or not per level, leaf search result, low/high, successor). RANGE-WIRING: with both bounds given BTree_rangeSearch searches (min, low=1, excludemin) and (max, low=0, excludemax) and builds the sequence from (LOW, LOW offset, HIGH, HIGH offset). ITER-CONTINUE is computed for five forms of the range arguments. SEEK-NET: BTreeItems_seek is interpreted abstractly as a whole, path by path over its syntax tree (polynomial values; helpers inlined, out-parameters followed, loops unrolled three times, contradictory paths dropped by bounds on linear forms); every successful return has committed pseudoindex == i and base(committed leaf) + offset == i, base being the index of a leaf's first item along the walk. ITER-ADVANCE: BTreeIter_next parks the finger at (leaf, offset + 1) exactly while offset + 1 < len and at (next leaf, 0) otherwise (same interpreter). GHOST-READ (pin typestate of C05) on the range / seek / min-max functions, their helpers and callers.",
          "; abstract interpretation of minKey/maxKey, the tree-level endpoint search and the range wiring over role / position atoms; path-sensitive abstract interpretation of the seek function (polynomial values, interval bounds on linear forms, bounded unrolling - no solver)"),
  "C03": (" FIRSTBUCKET-INV and PY-DEL-TAIL as in C01; UNLINK-STATUS additionally requires status 2 to be returned only with the child index tested zero. GHOST-READ (pin typestate of C05) on the split / unlink functions, their helpers and callers.", "; pin typestate on the split / unlink functions"),
  "C04": (" SAME-VALUE: the equal-value shortcut that skips store and registration is for native values only (C: no (in)equality test of an object value slot in a storing function; Python: the comparison is conjoined with a class attribute that is False for object values), followed through single-definition locals.",
